@@ -42,9 +42,23 @@ package at
 //@ func (*baseExecutor).afterHooks
 //@   trusted
 //@   ensures true
-//@ func (*selectForUpdateExecutor).buildSelectPKSQL
-//@   trusted
+// the primary-key query of a locking read asks for the SAME rows as the business SELECT: same table
+// source, same WHERE, same ORDER BY and LIMIT (together they decide which rows a LIMIT admits), same
+// hints, locked FOR UPDATE, one field per primary-key column. Abstract: turning the AST into text.
+//@ ext (*github.com/arana-db/parser/ast.SelectStmt).Restore
 //@   ensures true
+//@ ext github.com/arana-db/parser/format.NewRestoreCtx
+//@   ensures result != nil
+//@ func (*selectForUpdateExecutor).buildSelectPKSQL
+//@   prop C03
+//@   requires stmt != nil && meta != nil
+//@   ensures text-of-the-derived-query: result1 == nil ==> called("(*SelectStmt).Restore#1")
+//@   at call (*SelectStmt).Restore#1: assert selects-the-same-rows-as-the-business-select: arg_self.From == stmt.From && arg_self.Where == stmt.Where && arg_self.OrderBy == stmt.OrderBy && arg_self.Limit == stmt.Limit && arg_self.TableHints == stmt.TableHints
+//@   at call (*SelectStmt).Restore#1: assert locks-them: arg_self.LockInfo != nil && arg_self.LockInfo.LockType == ast.SelectLockForUpdate
+//@   at call (*SelectStmt).Restore#1: assert one-field-per-key-column: arg_self.Fields != nil && len(arg_self.Fields.Fields) == len(callres("GetPrimaryKeyOnlyName#1", 0))
+//@   loop 1 invariant index: rangeindex1 >= -1 && rangeindex1 + 1 <= len(pks)
+//@   loop 1 invariant fields-so-far: len(fields) == rangeindex1 + 1
+//@   may_panic
 //@ func (*selectForUpdateExecutor).buildLockKey
 //@   trusted
 //@   ensures true
